@@ -297,6 +297,7 @@ pub enum Op {
     MemLayout,         // [] -> [size_of Signature<C>, size_of PublicKey<C>, size_of (PublicKey point, Vec<u8>)]  8 bytes LE each: the in-memory sizes a caller can compute too
     AggVerifyReentrant, // [aggsig, pop-per-entry flag(1), (pk, msg, pop)...] -> [verdict of every nested PoP verification (1 byte each)]  the scheme trait's aggregate_verify fed by an iterator whose closure calls ProofOfPossession::verify for the entry it is about to yield
     EgEncryptProofBlinder, // [pk, msk, blinder] -> [eproof]   trait-level seal_scalar_with_proof with a caller-supplied blinder
+    VerifyIn,          // [codec(1), sig in that codec, codec(1), pk in that codec, msg] -> []   decode each component in the codec it arrived in, then Signature::verify on the decoded values (no detour through the byte form)
     MultiSigVerifyKeys, // [msig, msg, pk...] -> []   trait-level BlsSignaturePop::multi_sig_verify over the list of keys
 }
 
@@ -363,11 +364,20 @@ pub trait Lib: Sync + Send {
 }
 
 /// how often each operation was executed through an alternative public route (reach measurement only)
-pub static ALT_ROUTES_TAKEN: std::sync::Mutex<std::collections::BTreeMap<String, u64>> = std::sync::Mutex::new(std::collections::BTreeMap::new());
+static ALT_COUNTS: [std::sync::atomic::AtomicU64; 128] = [const { std::sync::atomic::AtomicU64::new(0) }; 128];
+static ALT_NAMES: std::sync::Mutex<std::collections::BTreeMap<usize, String>> = std::sync::Mutex::new(std::collections::BTreeMap::new());
+/// lock-free on the hot path: a caller thread of a scheduled session must not be parked while holding a harness lock
 pub fn note_alt_route(op: Op) {
-    if let Ok(mut m) = ALT_ROUTES_TAKEN.lock() {
-        *m.entry(format!("{:?}", op)).or_insert(0) += 1;
+    let i = (op as usize) % 128;
+    if ALT_COUNTS[i].fetch_add(1, std::sync::atomic::Ordering::Relaxed) == 0 {
+        if let Ok(mut m) = ALT_NAMES.lock() {
+            m.insert(i, format!("{:?}", op));
+        }
     }
+}
+pub fn alt_routes_taken() -> std::collections::BTreeMap<String, u64> {
+    let names = ALT_NAMES.lock().map(|m| m.clone()).unwrap_or_default();
+    names.into_iter().map(|(i, n)| (n, ALT_COUNTS[i].load(std::sync::atomic::Ordering::Relaxed))).collect()
 }
 
 thread_local! {
